@@ -138,7 +138,7 @@ impl TypeBitmaps {
         while let Some(&next) = octets.first() {
             // Make sure that the window number increases.
             // NOTE: 'None < Some(_)', for the first iteration.
-            if num.replace(next) > Some(next) {
+            if num.replace(next) >= Some(next) {
                 return Err(ParseError);
             }
 
